@@ -530,6 +530,48 @@ def law_session(sid: int, seed: int) -> dict:
     return s.finish(seed + 1)
 
 
+def blowup_session(sid: int, seed: int) -> dict:
+    """Operands whose normal forms are LARGER than what was written: (a and b or a and c) | (d and e or d and f) over
+    six different variables.  union() then keeps the un-normalised candidate; neutral and absorbing operands, and
+    operands sharing a branch with it, are combined with that result and everything is rendered and re-parsed."""
+    rng = random.Random(seed)
+    s = MSession(sid, seed)
+    names = rng.sample(["os_name", "sys_platform", "platform_machine", "implementation_name", "platform_system", "python_version", "extra"], 6)
+    set_atom_pool(rng, names, 0)
+    _POOL["atoms"] = None
+    atoms = [gen_atom(rng, v, reversed_ok=False) for v in names]
+    regs = [s.parse(t) for t in atoms]
+    E, A = s.parse("<empty>"), s.parse("")
+    if None in regs or None in (E, A) or s.dead:
+        return s.finish(seed + 1)
+    a, b, c, d, e, f = regs
+
+    def factored(x, y, z):
+        xy, xz = s.binop("and", x, y), (None if s.dead else s.binop("and", x, z))
+        return None if (xy is None or xz is None or s.dead) else s.binop("or", xy, xz)
+    m1 = factored(a, b, c)
+    m2 = None if (m1 is None or s.dead) else factored(d, e, f)
+    if m1 is None or m2 is None or s.dead:
+        return s.finish(seed + 1)
+    m3 = s.binop("or", m1, m2)
+    if m3 is None or s.dead:
+        return s.finish(seed + 1)
+    s.reparse(m3)
+    steps = [("or", m3, E), ("or", E, m3), ("and", m3, A), ("and", A, m3), ("or", m3, m1), ("and", m3, m2), ("and", m3, E), ("or", m3, A)]
+    rng.shuffle(steps)
+    for op, x, y in steps:
+        if s.dead:
+            break
+        r = s.binop(op, x, y)
+        if r is not None and not s.dead:
+            s.reparse(r)
+    if not s.dead:
+        s.project("exclude", m3, [names[0]])
+    out = s.finish(seed + 1)
+    out["session_kind"] = "blowup"
+    return out
+
+
 REFLECT = {"<": ">", "<=": ">=", ">": "<", ">=": "<=", "==": "==", "!=": "!="}
 
 
@@ -582,6 +624,8 @@ def make_batch(args) -> list[dict]:
     for k in range(n_law):
         if k % 4 == 3:
             out.append(interchange_session(0, seed * 1000037 + 700000 + k))
+        elif k % 4 == 1:
+            out.append(blowup_session(0, seed * 1000039 + 900000 + k))
         else:
             out.append(law_session(0, seed * 1000033 + 500000 + k))
     return out
